@@ -212,7 +212,7 @@ def gen_scenario(R, kind=None, n_ops=None, run_weight=1.0):
     impl = Impl(kind, float_ticks=meta["float_ticks"])
     for l in lines[1:]:
         impl.line(l.split())
-    for _ in range(n_ops or R.randrange(3, 16)):
+    for _ in range(n_ops if n_ops is not None else R.randrange(3, 16)):
         k = R.random()
         rw = 0.4 * run_weight
         if k < 0.33:
@@ -281,6 +281,8 @@ def oracle(sc, obs, abm_clauses=True):
             dead.add(ev[1])
         elif k == "run":
             run = ev
+            if ev[1] == "until" and last_clock is not None and ev[2] < last_clock:
+                return []  # horizon before the clock: outside the property's quantifier, nothing is claimed
         elif k == "exec":
             _, tag, clock = ev
             if last_clock is not None and clock < last_clock:
